@@ -314,13 +314,17 @@ def cbytes(b):
 def coq_eval_bad(prop, requires, case_type, check_fn, case_terms, shard_size=400, label='corr'):
     """Evaluate `check_fn : case_type -> bool` (a Coq term) on every case term inside Coq (vm_compute)
     and return the indices of the cases on which it is false."""
+    return coq_eval_bad_multi(prop, requires, case_type, [check_fn], case_terms, shard_size, label)[0]
+
+
+def coq_eval_bad_multi(prop, requires, case_type, check_fns, case_terms, shard_size=400, label='corr'):
+    """Same for several check functions over the same case list (one parse of the cases)."""
     if not case_terms:
-        return []
+        return [[] for _ in check_fns]
     d = os.path.join(CACHE, 'cases', prop)
     os.makedirs(d, exist_ok=True)
     shards = [case_terms[i:i + shard_size] for i in range(0, len(case_terms), shard_size)]
-    procs = []
-    bad = []
+    bad = [[] for _ in check_fns]
     running = []
 
     def launch(si, terms):
@@ -332,7 +336,8 @@ def coq_eval_bad(prop, requires, case_type, check_fn, case_terms, shard_size=400
             f.write('Definition cases : list (%s) :=\n [ ' % case_type)
             f.write(';\n   '.join(terms))
             f.write(' ].\n')
-            f.write('Eval vm_compute in (bad_indices (%s) cases).\n' % check_fn)
+            for fn in check_fns:
+                f.write('Eval vm_compute in (bad_indices (%s) cases).\n' % fn)
         p = subprocess.Popen(['timeout', '900', 'coqc', '-noglob', '-Q', COQ, 'RasnV', '-w', '-all', path],
                              stdout=subprocess.PIPE, stderr=subprocess.STDOUT, text=True)
         return (si, path, p)
@@ -351,13 +356,14 @@ def coq_eval_bad(prop, requires, case_type, check_fn, case_terms, shard_size=400
                 pass
         if p.returncode != 0:
             raise Broken('coq-eval', 'coqc failed on %s:\n%s' % (path, out[-3000:]))
-        m = re.search(r'=\s*(\[.*?\])\s*:\s*list N', out, re.S)
-        if not m:
+        ms = re.findall(r'=\s*(\[.*?\])\s*:\s*list N', out, re.S)
+        if len(ms) != len(check_fns):
             raise Broken('coq-eval', 'unparsable coqc output for %s:\n%s' % (path, out[-2000:]))
-        for x in re.findall(r'(\d+)%N', m.group(1)):
-            bad.append(si * shard_size + int(x))
+        for k, m in enumerate(ms):
+            for x in re.findall(r'(\d+)%N', m):
+                bad[k].append(si * shard_size + int(x))
         os.unlink(path)
-    return sorted(bad)
+    return [sorted(b) for b in bad]
 
 
 def coq_eval_show(prop, requires, exprs):
